@@ -29,7 +29,7 @@ MODES = ["good", "noise", "constant", "raise_recognised", "anti", "memorise", "o
 PROBES = ["fallback_taken", "fallback_desc_false", "model_kept", "all_untrained", "some_untrained", "explicit_error",
           "memorise_worse_branch", "override_on", "enc_pm1", "enc_10", "enc_bool", "parquet", "workers>1",
           "zero_scores_returned", "multi_file", "confidence_checked", "confidence_desc_false", "fold_aligned_feature",
-          "folds_disagree_on_best_feature", "all_trained_but_fallback", "confidence_rollup_level_checked"]
+          "folds_disagree_on_best_feature", "all_trained_but_fallback", "confidence_rollup_level_checked", "confidence_repeated"]
 RULE = (
     "For each sampled data set (planted strong feature, lower-is-better in half of them; 3 label encodings; text/Parquet) "
     "and fold count, EVERY assignment of {good, noise, constant, raise_recognised, anti, memorise, overfit} to the folds' estimators "
@@ -83,7 +83,7 @@ def _base(rng, dp, folds, override, fmt):
         "cfg": {
             "learner": "rlda", "folds": folds, "test_fdr": thr, "train_fdr": thr, "max_iter": rng.choice([1, 2]),
             "seed": rng.randint(0, 10**6), "subset_max_train": None, "max_workers": workers, "confidence": True,
-            "override": override, "raw_conf_scores": True,
+            "override": override, "raw_conf_scores": True, "confidence_twice": True,
             "conf": {"decoys": True, "dedup": True, "rollup": rng.random() < 0.5},
         },
         "format": fmt,
@@ -294,6 +294,16 @@ def run_scenario(scn, workdir):
         return viol("confidence_failed", f"assign_confidence failed on brew's return value: {res.error}",
                     fallback=is_feature is not None, **res.err_sig())
     probes["confidence_checked"] = 1
+    # a second report made from the same (scores, descs) objects must equal the first; the objects must be unchanged
+    for name, raw in res.files.items():
+        if res.files2.get(name) != raw:
+            return viol("confidence_repeat_differs", f"a second assign_confidence call with the same (scores, descs) objects "
+                        f"wrote a different {name} ({len((res.files2.get(name) or b'').splitlines())} vs {len(raw.splitlines())} lines); "
+                        f"descs={descs}", desc=bool(descs[0]))
+    for s_before, s_after in zip(scores, res.raw_scores):
+        if not np.array_equal(s_before, np.asarray(s_after, dtype=float).reshape(-1), equal_nan=True):
+            return viol("arguments_mutated", "assign_confidence changed the score arrays it was given", desc=bool(descs[0]))
+    probes["confidence_repeated"] = 1
     prefixes = [None] if len(tables) == 1 else [f"f{i}" for i in range(len(tables))]
     from .c05 import competing_ties
 
